@@ -228,11 +228,19 @@ class ECDSAKey(PKey):
         return m
 
     def verify_ssh_sig(self, data, msg):
-        if msg.get_text() != self.ecdsa_curve.key_format_identifier:
+        try:
+            sig_type = msg.get_text()
+        except UnicodeDecodeError:
+            return False
+        if sig_type != self.ecdsa_curve.key_format_identifier:
             return False
         sig = msg.get_binary()
         sigR, sigS = self._sigdecode(sig)
-        signature = encode_dss_signature(sigR, sigS)
+        try:
+            signature = encode_dss_signature(sigR, sigS)
+        except ValueError:
+            # negative integers cannot be a signature
+            return False
 
         try:
             self.verifying_key.verify(
